@@ -19,6 +19,13 @@
    The store is the list [odb.all()] of object ids (names are what gc decides on);
    the directory objects readable from cache_odb are an association list.
 
+   cache_odb (the store the directory objects are read from: Tree.load(cache_odb, ...)) may be
+   omitted (= odb), a second store of the same algorithm, or a second store of ANOTHER algorithm
+   (a legacy md5-dos2unix cache beside an md5 store, or the reverse).  It enters the model as
+   g_trees (what it can load) and g_cache_alg (its hash_name, carried in the input so that the
+   correspondence runs on mixed-algorithm cases; the model never reads it: `hash_info.name !=
+   odb.hash_name` compares with the COLLECTED store).
+
    [used] is Iterable[HashInfo] in the source and walked ONCE; the model takes it as a list.
    That the container kind (list/tuple/set/frozenset/generator/iter/map) makes no difference
    is part of the correspondence (harness: used_kind; for sets the observed iteration order
@@ -55,6 +62,10 @@ Record gc_in := {
   g_ro : bool;                   (* odb.read_only *)
   g_used : list (list N * oid);  (* HashInfo (name, value) *)
   g_trees : list (oid * option (list oid));  (* cache_odb: dir oid -> Some listing | None = corrupt *)
+  g_cache_alg : option (list N);  (* cache_odb.hash_name; None = cache_odb omitted (defaults to odb).
+                                     NOT read by gc: which ids count as used is decided by the
+                                     algorithm of the COLLECTED store (g_alg); the cache only
+                                     supplies the listings (g_trees).  C06_cache_alg_irrelevant. *)
   g_shallow : bool;
   g_dry : bool }.
 
